@@ -2,6 +2,8 @@
 
 package hsmsss
 
+import "github.com/arloliu/go-secs/v2/hsms"
+
 // Compiled only with the `verif` build tag: thin aliases over the two pure linktest reducers so an
 // external harness can fold generated observation histories through the real code.
 
@@ -13,4 +15,15 @@ func VerifLinktestFailureStep(suppress bool, recvNow, sentAt, inflight int64, fa
 // VerifLinktestDisconnectRecheck is linktestDisconnectRecheck.
 func VerifLinktestDisconnectRecheck(suppress bool, inflight, recvNow, sentAt int64) bool {
 	return linktestDisconnectRecheck(suppress, inflight, recvNow, sentAt)
+}
+
+// VerifInner returns the core connection an HSMS-SS connection wraps (nil if c is foreign), so that
+// the core's verif hooks can be applied to it.
+func VerifInner(c Connection) hsms.Connection {
+	cc, ok := c.(*connection)
+	if !ok {
+		return nil
+	}
+
+	return cc.Connection
 }
